@@ -4087,6 +4087,76 @@ def c06_pulse_exec(q, G=2):
     return go()
 
 
+def c06_simplex_guards():
+    """The proportion guards of _two/_three/_four/_five_pop_admixture_intermediates (fractions symbolic): the helper refuses (ValueError, before any
+    work) only vectors that are outside the simplex by MORE than a round-off allowance - some component (the implied last one included) below
+    -1e-15 - and it does refuse every vector with a component below -1e-9.  Over the reals a guard `< 0` is the exact simplex test; the
+    allowance is what keeps vectors that sum to 1 exactly on paper (0.8 + 0.2, 0.3 + 0.3 + 0.4) from being refused because their
+    floating-point remainder is -5e-17.  Any tolerance between the two thresholds satisfies the contract."""
+    oid = 'C06/PhiManip.py:simplex-guards'
+    out = []
+    names = {2: '_two_pop', 3: '_three_pop', 4: '_four_pop', 5: '_five_pop'}
+    for K in (2, 3, 4, 5):
+        q = names[K] + '_admixture_intermediates'
+        fn = 'dadi/PhiManip.py::' + q
+        o = '%s.%s' % (oid, q)
+        try:
+            fr = reals('f', K - 1)
+            comps = list(fr) + [1 - sum(fr, z3.RealVal(0))]
+            if K == 2:
+                comps = [fr[0], 1 - fr[0]]
+            work = []
+
+            def ah(ex_, fref, a, kw, ctx):
+                work.append(vrepr(fref)[:40])
+                return Tm('r%d' % len(work))
+            ex = Executor(policy=lambda f_: 'inline' if f_.qualname == q else 'abstract', max_paths=64)
+            ex.abstract_hook = ah
+            f = ex.func('dadi/PhiManip.py', q)
+            grids = [Tm(g) for g in GRIDS[:K]] + [Tm('dest_grid')]
+
+            def thunk(e):
+                del work[:]
+                try:
+                    e.apply(f.node, None, f.mod, [Tm('phi')] + list(fr) + grids, {}, q)
+                    return ('return', list(work))
+                except PyRaise as pe:
+                    return ('raise:%s' % pe.kind, list(work))
+                except Unsupported:
+                    return ('return', list(work))           # opaque array arithmetic after the guard: the guard has been passed
+            paths = ex.explore(thunk)
+            tiny, big = z3.RealVal('-1/1000000000000000'), z3.RealVal('-1/1000000000')
+            bad = []
+            nr = na = 0
+            for p in paths:
+                if p.outcome != 'return':
+                    bad.append('unexpected outcome %r' % p)
+                    continue
+                what, wk = p.value
+                s_ = z3.Solver()
+                s_.set('timeout', 5000)
+                s_.add(*p.pc)
+                if what.startswith('raise:ValueError'):
+                    nr += 1
+                    s_.add(z3.And(*[c >= tiny for c in comps]))
+                    if s_.check() != z3.unsat:
+                        bad.append('refuses a vector within round-off of the simplex: %s' % (s_.model() if s_.check() == z3.sat else 'undecided'))
+                    if wk:
+                        bad.append('work done before the refusal: %s' % wk[:2])
+                elif what.startswith('raise'):
+                    bad.append('raises %s' % what)
+                else:
+                    na += 1
+                    s_.add(z3.Or(*[c < big for c in comps]))
+                    if s_.check() != z3.unsat:
+                        bad.append('accepts a vector far outside the simplex: %s' % (s_.model() if s_.check() == z3.sat else 'undecided'))
+            out.append(struct(o, not bad and nr > 0 and na > 0, 'refuses only beyond a round-off allowance, and everything clearly outside (%d refusing / %d accepting paths)' % (nr, na)
+                              if not bad else '; '.join(str(b)[:200] for b in bad[:2]), fn, finding_key='C06/simplex-guard/%s' % q))
+        except (Unsupported, PyRaise, KeyError) as e_:
+            out.append(struct(o, False, 'outside the modelled subset: %r' % (e_,), fn, undecided=True))
+    return out
+
+
 def c06_pulse_functions():
     mod = ModInfo.load('dadi/PhiManip.py')
     return sorted(q for q in mod.funcs if re.match(r'phi_(\d)D_admix_.*into_(\d)$', q))
